@@ -1,0 +1,40 @@
+//go:build verif
+
+package runtime
+
+import (
+	"github.com/smarthome-go/homescript/v3/homescript/compiler"
+	"github.com/smarthome-go/homescript/v3/homescript/runtime/value"
+)
+
+// Verification hooks (build tag `verif`): one event per action of the TLA+ specifications
+// HmsCores / HmsVM, emitted at the linearization point. Nothing happens unless a harness installs
+// a hook; a hook may block, which lets the harness dictate the interleaving of the goroutines.
+
+// VerifHook receives the protocol events (spawn, wait, offer, poll, globals).
+var VerifHook func(ev string, core int64, arg string)
+
+// VerifInstr is called before every instruction a core executes.
+var VerifInstr func(core *Core, instruction compiler.Instruction)
+
+func vh(ev string, core int64, arg string) {
+	if h := VerifHook; h != nil {
+		h(ev, core, arg)
+	}
+}
+
+func vhInstr(core *Core, instruction compiler.Instruction) {
+	if h := VerifInstr; h != nil {
+		h(core, instruction)
+	}
+}
+
+func vhKind(i *value.VmInterrupt) string {
+	if i == nil {
+		return "nil"
+	}
+	if (*i).Kind() == value.Vm_TerminateInterruptKind {
+		return "term"
+	}
+	return "fatal"
+}
